@@ -442,6 +442,7 @@ let violation_str = function
   | Model.V_dup_txid -> "duplicate-txid" | Model.V_double_spend -> "double-spend" | Model.V_index_missing -> "spends-index-missing"
   | Model.V_index_extra -> "spends-index-extra" | Model.V_input_unavailable -> "input-unavailable" | Model.V_totals -> "totals"
   | Model.V_nonfinal -> "non-final-entry" | Model.V_immature -> "immature-coinbase-spend" | Model.V_links -> "graph-links"
+  | Model.V_nonbip68 -> "entry-not-BIP68-final-for-next-block"
 let tviolation_str = function
   | Model.TV_order -> "template-order" | Model.TV_weight -> "template-weight" | Model.TV_sigops -> "template-sigops"
   | Model.TV_nonfinal -> "template-nonfinal" | Model.TV_coinbase -> "template-coinbase" | Model.TV_duplicate -> "template-duplicate"
@@ -462,7 +463,7 @@ let parse_dump s (d : string) : Model.dump * string * string =
   let outpoint src n : Model.outpoint = (z (id_of s src), zs n) in
   let dentries = List.map (fun e ->
       match split_on ',' e with
-      | [n; fee; _modfee; vs; _w; _sg; cb; _time; _lph; _lpt; _lpm; anc; ins] ->
+      | [n; fee; _modfee; vs; _w; _sg; cb; _time; _lph; _lpt; _lpm; anc; ins; fresh] ->
         let t = Hashtbl.find_opt s.txs n in
         let seqs = match t with Some t -> List.map snd t.Model.t_vin | None -> [] in
         let inl = split_on '.' ins in
@@ -483,7 +484,8 @@ let parse_dump s (d : string) : Model.dump * string * string =
         { Model.d_id = z (id_of s n); d_vin = vin; d_fee = zs fee; d_size = zs vs; d_cb = (cb = "1");
           d_version = (match t with Some t -> t.Model.t_version | None -> z 2);
           d_locktime = (match t with Some t -> t.Model.t_locktime | None -> z 0);
-          d_anc = (if anc = "-" then [] else List.map (fun a -> z (id_of s a)) (split_on '.' anc)) }
+          d_anc = (if anc = "-" then [] else List.map (fun a -> z (id_of s a)) (split_on '.' anc));
+          d_bip68 = (fresh = "1") }
       | _ -> failwith ("bad entry dump " ^ e)) ents in
   let next = List.map (fun x ->
       match split_on '>' x with
@@ -527,7 +529,7 @@ let holds_line (mode : string) (case : string) (impl : string) : string =
            if mode <> "C23" && mode <> "C28" then begin
              (match Model.check_dump dump with Some v -> fail !n (violation_str v) | None -> ());
              if chk <> "ok" then fail !n ("mempool-check-" ^ chk);
-             if blk <> "ok" && blk <> "skip" then fail !n ("pool-not-valid-for-next-block:" ^ blk);
+             if blk <> "ok" && blk <> "skip" then fail !n ("entry-not-valid-for-next-block:" ^ blk);
              (* cached LockPoints of every entry refer to a block of the active chain (the `@0` marker of the dump says otherwise) *)
              (try ignore (Str.search_forward (Str.regexp_string "@0,") det 0); fail !n "stale-lockpoints" with Not_found -> ())
            end;
